@@ -510,6 +510,12 @@ func main() {
 	}
 	acceptErr(c.Rng.Bytes(64), c.Rng.Bytes(5))
 	acceptErr(c.Rng.Bytes(80), c.Rng.Bytes(16))
+	// ---- the tags the listener theorems are about are the ones the codecs announce ----
+	for cid := 0; cid < 3; cid++ {
+		c.Obs.Evaluations++
+		tag := tx.NewCodec(cid, 0).(interface{ ObfuscatedTag() [4]byte }).ObfuscatedTag()
+		c.Case(fmt.Sprintf("(CTag %d %s)", cid, tx.HB(tag[:])), map[string]interface{}{"tag": cid})
+	}
 	// ---- whole stack through transport.ObfuscatedListener ----
 	for cid := 0; cid < 3; cid++ {
 		for r := 0; r < c.N(4, 100); r++ {
